@@ -136,11 +136,12 @@ def supported(item, entry):
 
 
 # ------------------------------------------------------------------------- cross-instance state
-def fresh_outputs(item):
-    """what a freshly constructed creator returns, for every entry method and dialect"""
+def fresh_outputs(item, dialects=None):
+    """what a freshly constructed creator returns, for every entry method and dialect (asked in the given
+    order: state shared across dialects - a memo keyed without the dialect - shows as order dependence)"""
     out = {}
     for entry in G.ENTRY[item["kind"]]:
-        for d in G.DIALECTS:
+        for d in (dialects or G.DIALECTS):
             try:
                 out[f"{entry}:{d}"] = jsonable(call(item["make"](), entry, d))
             except Exception as e:
@@ -152,10 +153,10 @@ def ukey(item):
     return f"{item['kind']}:{item['label']}"       # labels repeat across kinds (And / Or / Not)
 
 
-def record_all(grid, order=None):
+def record_all(grid, order=None, dialects=None):
     res = {}
     for i in (order if order is not None else range(len(grid))):
-        res[ukey(grid[i])] = fresh_outputs(grid[i])
+        res[ukey(grid[i])] = fresh_outputs(grid[i], dialects)
     return res
 
 
@@ -169,7 +170,8 @@ def isolated_outputs(labels):
     grid = {ukey(it): it for it in G.grid()}
     res = None
     for lb in labels:
-        res = fresh_outputs(grid[lb])
+        # the fresh interpreter asks the dialects in the opposite order of the in-process passes
+        res = fresh_outputs(grid[lb], list(reversed(G.DIALECTS)))
     return labels[-1], res
 
 
